@@ -785,6 +785,17 @@ theorem C11_lincheck_sound (init : ASet) (cs : List HCall) (h : linearizable ini
 example : linearizable (newSet [1]) [⟨.add 1, .bool false, 0, 3⟩, ⟨.del 1, .bool true, 1, 2⟩, ⟨.has 1, .bool false, 4, 5⟩] = true
     ∧ linearizable (newSet []) [⟨.has 1, .bool true, 0, 1⟩, ⟨.add 1, .bool true, 2, 3⟩] = false := by decide
 
+/-- the reading of seeded C11-r6-2's author, decided by the checker: the factory of `Compute(+{4}, -current∩{1,2})` saw 2 in
+the set, a `Delete(2)` inside the window reports `true`, `Compute` reports that it removed nothing.  With the factory's
+observation recorded (`computeSaw`) no linearization exists; without it the three calls alone would be explained by
+"Delete first". -/
+example :
+    linearizable (newSet [2, 3]) [⟨.computeSaw [4] [1, 2] [2], .mut [4] [], 1, 6⟩, ⟨.del 2, .bool true, 2, 3⟩,
+      ⟨.del 4, .bool false, 4, 5⟩] = false ∧
+    linearizable (newSet [2, 3]) [⟨.compute [4] [1, 2], .mut [4] [], 1, 6⟩, ⟨.del 2, .bool true, 2, 3⟩,
+      ⟨.del 4, .bool false, 4, 5⟩] = true ∧
+    linearizable (newSet [2, 3]) [⟨.computeSaw [4] [1, 2] [2], .mut [4] [2], 1, 3⟩, ⟨.del 2, .bool false, 2, 4⟩] = true := by decide
+
 /-! ## regenerated lock skeletons
 
 `Hive/Gen/C11_Skel.lean` is regenerated from the working tree on every run (`harness/tools/extract-sync`).
